@@ -210,6 +210,24 @@ func S9(maxPacket, ops, digests, dups, holds int) *Scenario {
 	}
 }
 
+// S10: cold joins: nobody knows anybody at the start, so the first contact
+// (either way round, with or without state on either side, with a third node
+// known only to the seed) is a TCP join whose reply names unknown nodes.
+func S10(maxPacket, ops, digests, dups, holds int) *Scenario {
+	return &Scenario{
+		Name: "S10-cold-join", IDs: []string{"nX", "nO", "nQ"}, MaxPacket: maxPacket,
+		Ops: map[int][]Event{
+			0: {{Kind: "up", K: "a", V: "1"}, {Kind: "up", K: "b", V: "1"}, {Kind: "del", K: "a"}},
+			1: {{Kind: "up", K: "c", V: "1"}},
+		},
+		MaxOps:  map[int]int{0: ops, 1: 1},
+		Digests: [][2]int{{1, 0}, {0, 1}}, MaxDigests: digests,
+		Perms: "id", MaxDups: dups, MaxInflight: 3, MaxHolds: holds,
+		Joins: [][2]int{{0, 1}, {1, 0}, {2, 1}, {0, 2}}, MaxJoins: 2,
+		Oracles: OracleSet{C02: true, C14: true},
+	}
+}
+
 // ByName rebuilds a scenario from its name and parameters (used by replay).
 type Params struct {
 	Name                                           string
@@ -241,6 +259,8 @@ func Build(p Params) *Scenario {
 		sc = S8(p.MaxPacket, p.Ops, p.Digests, p.Dups, p.Holds)
 	case "S9":
 		sc = S9(p.MaxPacket, p.Ops, p.Digests, p.Dups, p.Holds)
+	case "S10":
+		sc = S10(p.MaxPacket, p.Ops, p.Digests, p.Dups, p.Holds)
 	default:
 		panic("unknown scenario " + p.Name)
 	}
